@@ -5,6 +5,7 @@ For every real path (outcome) the spec function is executed under the real path'
 arbitrary iteration from a common arbitrary state, after which both sides continue with the same fresh constants.
 Induction over the iterations is the fold-congruence lemma (lean/Walk.lean: fold_congr_mem).
 """
+import ast
 import time
 
 import z3
@@ -92,6 +93,7 @@ class Lockstep:
         c = self.c
         fname = c.name
         args, st0 = self.initial_state(real_def)
+        self.real_def = real_def
         pre = self.preconditions(args, st0)
         st0.conds.extend(pre)
         ex = Exec(self.ctx, "real", fname)
@@ -185,7 +187,28 @@ class Lockstep:
             self.frame(fname, ro, st0)
 
     def preconditions(self, args, st0):
-        return []
+        """well-formedness of the parse-tree arguments (pyvc/wf.py): ground facts generated from blackbird.g4 for every parameter whose
+        context class is known -- from the annotation `ctx: blackbirdParser.XContext` of the real function or the contract's `ctx_params`"""
+        from . import wf
+        known = dict(self.c.d.get("ctx_params", {}))
+        rd = getattr(self, "real_def", None)
+        if rd is not None:
+            for a in rd.args.args:
+                if a.annotation is not None:
+                    t = ast.unparse(a.annotation).split(".")[-1]
+                    if t.endswith("Context") and t in self.ctx.ctx_classes:
+                        known.setdefault(a.arg, t)
+        out = []
+        if known:
+            gram = self.ctx.grammar()
+            if gram is None:
+                return []
+            self.ctx.assumed.add("A-antlr-tree")
+            for nm, cn in sorted(known.items()):
+                if nm in args and z3.is_expr(args[nm]):
+                    out.extend(wf.facts(self.ctx, gram, args[nm], cn))
+            self.stats["wf_facts"] = len(out)
+        return out
 
     # ------------------------------------------------------------------------------------------------
     def relate_events(self, name, hyps, rev, sev, info):
